@@ -53,6 +53,32 @@ def ast_weight(ast):
     return ast_weight(ast[1]) + 1
 
 
+def near_value(rnd, v):
+    """A JSON value that differs from v as little as possible: a list extended / cut by one
+    element (so one is a strict prefix of the other), a dict with one key more / fewer, the
+    falsy family None / 0 / "" / [] / {} swapped among themselves, a string one character
+    longer.  No booleans and no floats (0 == False and 1 == 1.0 in Python but not in JSON)."""
+    if isinstance(v, list):
+        r = rnd.random()
+        if v and r < 0.4:
+            return v[:-1]
+        if r < 0.8:
+            return v + [rnd.choice([0, 1, "v", None, []])]
+        return {} if not v else [v[0]] * len(v) if len(set(map(repr, v))) > 1 else v + v
+    if isinstance(v, dict):
+        if v and rnd.random() < 0.4:
+            k = rnd.choice(sorted(v))
+            return {a: b for a, b in v.items() if a != k}
+        return {**v, "n%d" % rnd.randint(0, 2): rnd.choice([None, 0, 1])} if rnd.random() < 0.8 or v else []
+    if v is None or v == 0 or v == "":
+        return rnd.choice([x for x in (None, 0, "", [], {}) if x != v or type(x) is not type(v)])
+    if isinstance(v, str):
+        return v + "x" if rnd.random() < 0.5 else (v[:-1] or "y")
+    if isinstance(v, int):
+        return rnd.choice([v + 1, str(v), [v]])
+    return None
+
+
 def bounded_ast(rnd, names, size, max_weight=60):
     for _ in range(50):
         a = random_ast(rnd, names, size)
